@@ -4,8 +4,9 @@
 //! on the alternate stack std installs for every thread) writes that buffer to disk, prints the report line and exits:
 //! exit 1 + VIOLATION for C07 (the property that forbids aborts), exit 2 (inconclusive, pointing at C07) for every other
 //! property. Only async-signal-safe calls are made in the handler (open / write / _exit).
+//! A monitor thread applies the same reporting to a worker that never comes back from one evaluation (see `hang_monitor`).
 use std::cell::Cell;
-use std::sync::atomic::{AtomicBool, AtomicPtr, AtomicUsize, Ordering};
+use std::sync::atomic::{AtomicBool, AtomicPtr, AtomicU64, AtomicUsize, Ordering};
 
 const SLOTS: usize = 128;
 const CAP: usize = 4 << 20;
@@ -18,6 +19,55 @@ static IS_C07: AtomicBool = AtomicBool::new(false);
 static INSTALLED: AtomicBool = AtomicBool::new(false);
 static CAPS: [AtomicUsize; SLOTS] = [const { AtomicUsize::new(0) }; SLOTS];
 static ONCE: std::sync::Once = std::sync::Once::new();
+/// start of the evaluation a slot is busy with, in ms since the guard was installed (0 = idle): read by the hang watchdog
+static STARTS: [AtomicU64; SLOTS] = [const { AtomicU64::new(0) }; SLOTS];
+static T0: std::sync::OnceLock<std::time::Instant> = std::sync::OnceLock::new();
+
+fn now_ms() -> u64 {
+    T0.get_or_init(std::time::Instant::now).elapsed().as_millis() as u64 + 1
+}
+
+/// One in-process evaluation normally takes milliseconds (a second with an executed Python module). A worker that stays
+/// inside one evaluation for `VERIF_HANG_SECS` (default 120 s) is spinning: the monitor saves its case and ends the run -
+/// exit 1 + VIOLATION for C07 (the property that forbids hangs), exit 2 (inconclusive) for every other property.
+fn hang_monitor() {
+    let limit = std::env::var("VERIF_HANG_SECS").ok().and_then(|v| v.parse::<u64>().ok()).unwrap_or(120) * 1000;
+    loop {
+        std::thread::sleep(std::time::Duration::from_millis(500));
+        let now = now_ms();
+        for k in 0..SLOTS {
+            let st = STARTS[k].load(Ordering::SeqCst);
+            if st == 0 || now.saturating_sub(st) < limit {
+                continue;
+            }
+            let len = LENS[k].load(Ordering::SeqCst);
+            let buf = BUFS[k].load(Ordering::SeqCst);
+            let path = PATHS[k].load(Ordering::SeqCst);
+            if len == 0 || buf.is_null() || path.is_null() || STARTS[k].load(Ordering::SeqCst) != st {
+                continue;
+            }
+            let text = unsafe { String::from_utf8_lossy(std::slice::from_raw_parts(buf, len)).into_owned() };
+            let text = text.replace("crash/fatal-signal-in-process", "hang/in-process").replace(
+                "typeshare brought the process down with a fatal signal (stack overflow / segfault / abort) while this case was evaluated in-process",
+                "the in-process typeshare run of this case did not return within the hang watchdog (it normally takes milliseconds): typeshare spins or dead-locks on it",
+            );
+            let path = unsafe { String::from_utf8_lossy(std::slice::from_raw_parts(path, cstr_len(path))).into_owned() }.replace("/crash-", "/hang-");
+            let _ = std::fs::write(&path, text);
+            let is_c07 = IS_C07.load(Ordering::Relaxed);
+            let line1 = LINE1.load(Ordering::Relaxed);
+            let line1 = if line1.is_null() { String::new() } else { unsafe { String::from_utf8_lossy(std::slice::from_raw_parts(line1, cstr_len(line1))).into_owned() } };
+            let line1 = line1.replace("crashed the process in-process (a fatal signal is", "did not return from an in-process run (a hang is");
+            use std::io::Write;
+            let so = std::io::stdout();
+            let mut so = so.lock();
+            let _ = writeln!(so, "{line1}{path}");
+            let _ = writeln!(so, "  sig=hang/in-process");
+            let _ = writeln!(so, "  | the in-process typeshare run did not return within {} s (normal: milliseconds): the command would hang", limit / 1000);
+            let _ = so.flush();
+            unsafe { libc::_exit(if is_c07 { 1 } else { 2 }) };
+        }
+    }
+}
 
 thread_local! {
     static SLOT: Cell<usize> = const { Cell::new(usize::MAX) };
@@ -120,6 +170,8 @@ fn install_once(prop: &str) {
         }
     }
     INSTALLED.store(true, Ordering::SeqCst);
+    let _ = now_ms();
+    std::thread::spawn(hang_monitor);
 }
 
 /// Publish the replay file of the case this thread is about to evaluate.
@@ -144,10 +196,12 @@ pub fn enter(slot: usize, replay_json: &[u8]) {
     };
     unsafe { std::ptr::copy_nonoverlapping(replay_json.as_ptr(), buf, n) };
     LENS[slot].store(n, Ordering::SeqCst);
+    STARTS[slot].store(now_ms(), Ordering::SeqCst);
 }
 
 pub fn leave(slot: usize) {
     if slot < SLOTS {
+        STARTS[slot].store(0, Ordering::SeqCst);
         LENS[slot].store(0, Ordering::SeqCst);
     }
 }
